@@ -205,6 +205,31 @@ def rule_r4b(facts, rep, rid="C05-R4b"):
     rep.ok(rid, "backlink-consumers|droppers-inventory", "%d dropping adapter(s) on the referrer streams" % n, None, nontrivial=False)
 
 
+def rule_r7(facts, rep, rid="C05-R7"):
+    """DocumentBlock::is_ref: a paragraph is a block reference iff it has exactly one inline and that inline is a reference."""
+    f = facts.fn("DocumentBlock::is_ref")
+    rep.saw_fn(f)
+    c = ctx(f)
+    key = f.def_ + "|exactly-one-inline-that-is-a-reference"
+    one = False
+    elem = False
+    for x in fb.walk(f.body):
+        if x.get("k") == "binary" and x.get("op") == "==":
+            sides = [x["l"], x["r"]]
+            if any(y.get("k") == "mcall" and y["name"] == "len" for y in sides) and any(y.get("k") == "lit" and str(y.get("v", "")).split(":", 1)[-1].rstrip("usize") == "1" for y in sides):
+                one = True
+        if x.get("k") == "mcall" and (fb.callee(x) or "").endswith("DocumentInline::is_ref"):
+            elem = True
+        if x.get("k") == "match" and any(p.get("k") == "p_slice" and len(p.get("pats", [])) == 1 for a in x.get("arms", []) for p in [a.get("pat")] if isinstance(p, dict)):
+            one = True
+    quant = [x["name"] for x in fb.walk(f.body) if x.get("k") == "mcall" and x["name"] in ("all", "any", "first", "last", "find") and (fb.callee(x) or "").startswith(("core::iter", "std::iter", "core::slice", "std::slice"))]
+    if one and elem and not quant:
+        rep.ok(rid, key, "`inlines.len() == 1 && inlines[0].is_ref()`", f.loc)
+    else:
+        rep.violation(rid, key, "DocumentBlock::is_ref no longer requires exactly one inline (len()==1: %s, element test: %s, quantifier: %s): a paragraph made of several links (or of none) is read "
+                      "as a block reference to its first link - the other links vanish from the note, from backlinks and from squash" % (one, elem, quant or "-"), f.loc)
+
+
 def run(facts, rep, tier):
     rep.rule("C05-R1", "= C04-R2: the index walker reaches every node kind through child and next and records heading/paragraph lines and table cells.")
     rep.rule("C05-R2", "One resolver for link targets: Key::from_file_name is only applied to library-relative file names (audited callers); "
@@ -235,3 +260,5 @@ def run(facts, rep, tier):
     rep.rule("C05-R2b", "= C15-R3: the directory a reference is resolved against (Key::parent) and the url reader / writer use one path algebra.")
     from . import c15
     c15.rule_r3(facts, rep, "C05-R2b")
+    rep.rule("C05-R7", "Only a paragraph that consists of exactly one reference is a block reference; every other paragraph keeps its links as inline links.")
+    rule_r7(facts, rep)
